@@ -166,7 +166,12 @@ class GaussianMixture:
         responsibilities = np.zeros((n_samples, self.n_components))
         for k in range(self.n_components):
             distances = np.sum((X - means[k]) ** 2, axis=1)
-            responsibilities[:, k] = np.exp(-0.5 * distances)
+            responsibilities[:, k] = -0.5 * distances
+        # Softmax in log space: exp(-0.5 * d) underflows to 0/0 for points further
+        # than ~38 from every initial centre, which made every fitted parameter NaN
+        responsibilities = np.exp(
+            responsibilities - np.max(responsibilities, axis=1, keepdims=True)
+        )
         responsibilities /= np.sum(responsibilities, axis=1, keepdims=True)
 
         # Compute initial weights and covariances
